@@ -65,6 +65,8 @@ OPS = [
     ("markup2", {"markup": "<p><i>Foo v. Bar</i>, 1 U.S. 1 (1999). In <i>Bar</i> we held.</p>", "steps": ["html"]}),
     ("t4", {"text": "Adarand v. Pena, 515 U.S. ___ (1995). Adarand, 515 U.S., at ___. See 1 F.2d at ___."}),
     # 'html' not first in the caller's list (the list object itself must come back untouched)
+    ("other1", {"text": "Foo v. Bar, 1 U.S. 1 (1999). 1 T.C. at 15.", "other_tokenizer": "noshort"}),
+    ("tc", {"text": "See 1 T.C. at 15; 1 Hughes (1877) 12; 1 H. 1."}),
     ("markup3", {"markup": "<p><i>Foo v. Bar</i>, 1 U.S. 1 (1999). In <i>Bar</i> we held.</p>", "steps": ["inline_whitespace", "html", "all_whitespace"]}),
 ]
 # Generated families of operations that collide pairwise on part of their input (same party names in other roles, same
@@ -117,6 +119,10 @@ def install_seam():
 
 def run_op(op, tok="AC"):
     tk = tokenizer(tok)
+    if op.get("other_tokenizer"):
+        # the same public call through a freshly built tokenizer over a sub-list of the shared extractor objects
+        sub = [e for e in T.EXTRACTORS if not e.extra.get("short")] if op["other_tokenizer"] == "noshort" else list(T.EXTRACTORS[::2])
+        tk = T.AhocorasickTokenizer(extractors=sub)
     if "markup" in op:
         steps = list(op.get("steps", ["html", "all_whitespace"]))
         before = list(steps)
